@@ -239,6 +239,13 @@ fn handle(line: &str) -> String {
                 Err(_) => "err".to_string(),
             }
         }
+        "build_name" => {
+            // <name|version> <n>: required metadata of n bytes, then build()
+            let n: usize = p[2].parse().unwrap_or(66);
+            let long = "a".repeat(n);
+            let b = if p[1] == "version" { rpm::PackageBuilder::new("n", &long, "MIT", "noarch", "s") } else { rpm::PackageBuilder::new(&long, "1", "MIT", "noarch", "s") };
+            match b.compression(rpm::CompressionType::None).build() { Ok(_) => "ok".to_string(), Err(_) => "build-err".to_string() }
+        }
         "with_file_build" => {
             // <hex destination>: with_file on an existing source file, then build()
             let dest = unhex(p[1]);
